@@ -113,9 +113,9 @@ func (p *c04) specs(tier string) []c04spec {
 		sp = append(sp, c04spec{kind: "enginectx", sample: 40})
 	}
 	// appended last so that the indices of the older families stay what they were
-	nRec := 240
+	nRec := 24
 	if tier == "thorough" {
-		nRec = 6000
+		nRec = 400
 	}
 	for i := 0; i < nRec; i++ {
 		sp = append(sp, c04spec{kind: "recursion", sample: 4})
